@@ -27,7 +27,7 @@ BOUNDS = {
     "quick": "kernel: slice angle phi symbolic in (0, 36 deg] / (0, 18 deg] / (0, 9 deg] and the mirrored ranges, curve parameter s in {1/4, 1/2, 3/4}; "
              "equivariance and structure: centre in +-1000, radii in [0.01, 1000] with ratio <= 100, rotation, start parameter in +-7 rad, sweep in +-[0.001, 7] rad, "
              "explicit subdivision n in 1..3; default subdivision for |sweep| <= 90 deg (n <= 3) in equivariance harnesses and |sweep| <= 7 rad (n <= 14) for count/end points; "
-             "path: M L A L z with symbolic arc (n in 1..2 by error setting 0.1 / 0.25 and |sweep| range)",
+             "path: M L A L z with symbolic arc (n in 1..2 by error setting 0.1 / 0.25 and |sweep| range); M A L A with a symbolic arc of 1..3 slices followed by a concrete quarter circle",
     "thorough": "as quick with n in 1..4, curve parameter s symbolic in [0, 1] attempted for the kernel (undecided instances are reported as such), 120 s per claim",
 }
 OUTSIDE = ["the error bound for every curve parameter s in [0, 1] (quick tier decides it at s = 1/4, 1/2, 3/4; numerically the maximum is at s = 1/2)",
